@@ -10,7 +10,10 @@
              else { conn.Close() } }                                          (fix C36-2; before: dropped unclosed)
 
      attachClient (handler of connection i, spawned by ASpawn):
-       [attach.start] ClientsWg.Add(1); read CONNECT; limit; auth; counter   HStart
+       [attach.start] ClientsWg.Add(1)                                      HStart
+       readConnectionPacket: blocks until the client has sent its CONNECT
+           (returns an error if the connection is closed first: return);
+           limit; auth; counter                                              HRead
        [attach.afterInherit] Clients.Add(cl)                                 HClientsAdd
        [attach.afterClientsAdd] if done is closed { SendConnack(0x8B / 0x03); return }     (fix C36-1b)
            SendConnack(success) (fails if the connection was closed
@@ -30,8 +33,8 @@
    The pre-fix code (no check of `done` after Clients.Add; a connection accepted after end = 1 left
    open) is the instance [exec_gen false], kept for Findings/FixedC36.v.
 
-   Clients are the environment: Dial i (connect and send CONNECT at once) and Leave i (close the
-   socket).  All control state lives in the shared state (phases), every instruction is guarded by
+   Clients are the environment: Dial i (connect), Send i (the CONNECT packet is complete on the
+   wire) and Leave i (close the socket, at any time after Dial).  All control state lives in the shared state (phases), every instruction is guarded by
    the phase it starts from, so what can still happen is visible in the state. *)
 From MV Require Import Base.Val Base.Sched.
 Open Scope Z_scope.
@@ -44,7 +47,8 @@ Inductive phase : Type :=
 | PCur         (* returned by Accept, the accept loop has not yet looked at `end` *)
 | PDropped     (* accepted after end = 1: not handled; closed at once (pre-fix: left open) *)
 | PSpawned     (* handler goroutine created, before ClientsWg.Add *)
-| PAdded       (* after ClientsWg.Add, not yet in Clients *)
+| PWait        (* after ClientsWg.Add, waiting in readConnectionPacket for the client's CONNECT *)
+| PAdded       (* CONNECT read, not yet in Clients *)
 | PInClients   (* in Clients, CONNACK not yet sent *)
 | PServing     (* CONNACK sent, handler in its read loop *)
 | PDone.       (* handler returned *)
@@ -56,7 +60,8 @@ Record conn : Type := mkConn {
   c_left : bool;       (* the client closed its end *)
   c_connack : bool;    (* success CONNACK written *)
   c_disc : bool;       (* DISCONNECT 0x8B written *)
-  c_insnap : bool }.   (* in the closer's snapshot of Clients *)
+  c_insnap : bool;     (* in the closer's snapshot of Clients *)
+  c_sent : bool }.     (* the client has sent its CONNECT packet completely *)
 
 Inductive kphase : Type := KIdle | KEnd | KSnap | KDisc | KLClosed | KWaiting | KReturned.
 Inductive aphase : Type := AAtChk | AAtAccept | AAtSpawn (i : nat) | AHalted.
@@ -72,9 +77,9 @@ Record sstate : Type := mkS {
   g_unstarted : bool }.      (* when ClientsWg.Wait returned, a spawned handler had not yet run ClientsWg.Add *)
 
 Inductive instr : Type :=
-| Dial (i : nat) | Leave (i : nat)
+| Dial (i : nat) | Send (i : nat) | Leave (i : nat)
 | AChk | AAccept | ASpawn
-| HStart (i : nat) | HClientsAdd (i : nat) | HConnack (i : nat) | HTeardown (i : nat)
+| HStart (i : nat) | HRead (i : nat) | HClientsAdd (i : nat) | HConnack (i : nat) | HTeardown (i : nat)
 | KSetEnd | KSnapshot | KDisconnect | KCloseListener | KEnterWait | KReturn.
 
 Definition k_end (k : kphase) : bool := match k with KIdle => false | _ => true end.
@@ -88,26 +93,28 @@ Definition k_disconnected (k : kphase) : bool :=
 Definition phase_eqb (p q : phase) : bool :=
   match p, q with
   | PNone, PNone | PPending, PPending | PRefused, PRefused | PReset, PReset | PCur, PCur
-  | PDropped, PDropped | PSpawned, PSpawned | PAdded, PAdded | PInClients, PInClients
+  | PDropped, PDropped | PSpawned, PSpawned | PWait, PWait | PAdded, PAdded | PInClients, PInClients
   | PServing, PServing | PDone, PDone => true
   | _, _ => false
   end.
 
 Definition set_phase (p : phase) (c : conn) : conn :=
-  mkConn (c_ver c) p (c_closed c) (c_left c) (c_connack c) (c_disc c) (c_insnap c).
+  mkConn (c_ver c) p (c_closed c) (c_left c) (c_connack c) (c_disc c) (c_insnap c) (c_sent c).
 Definition set_closed (c : conn) : conn :=
-  mkConn (c_ver c) (c_phase c) true (c_left c) (c_connack c) (c_disc c) (c_insnap c).
+  mkConn (c_ver c) (c_phase c) true (c_left c) (c_connack c) (c_disc c) (c_insnap c) (c_sent c).
 Definition set_left (c : conn) : conn :=
-  mkConn (c_ver c) (c_phase c) (c_closed c) true (c_connack c) (c_disc c) (c_insnap c).
+  mkConn (c_ver c) (c_phase c) (c_closed c) true (c_connack c) (c_disc c) (c_insnap c) (c_sent c).
+Definition set_sent (c : conn) : conn :=
+  mkConn (c_ver c) (c_phase c) (c_closed c) (c_left c) (c_connack c) (c_disc c) (c_insnap c) true.
 Definition set_connack (c : conn) : conn :=
-  mkConn (c_ver c) (c_phase c) (c_closed c) (c_left c) true (c_disc c) (c_insnap c).
+  mkConn (c_ver c) (c_phase c) (c_closed c) (c_left c) true (c_disc c) (c_insnap c) (c_sent c).
 
 (* handler holds a ClientsWg unit *)
 Definition counted (c : conn) : bool :=
-  match c_phase c with PAdded | PInClients | PServing => true | _ => false end.
+  match c_phase c with PWait | PAdded | PInClients | PServing => true | _ => false end.
 (* handler goroutine exists and has not returned *)
 Definition live (c : conn) : bool :=
-  match c_phase c with PSpawned | PAdded | PInClients | PServing => true | _ => false end.
+  match c_phase c with PSpawned | PWait | PAdded | PInClients | PServing => true | _ => false end.
 Definition in_clients (c : conn) : bool :=
   match c_phase c with PInClients | PServing => true | _ => false end.
 
@@ -147,11 +154,11 @@ Definition wg_add (s : sstate) : sstate :=
    on an already stopped client nothing is written *)
 Definition disconnect_client (c : conn) : conn :=
   if c_closed c then c
-  else mkConn (c_ver c) (c_phase c) true (c_left c) (c_connack c) true (c_insnap c).
+  else mkConn (c_ver c) (c_phase c) true (c_left c) (c_connack c) true (c_insnap c) (c_sent c).
 Definition disconnect (c : conn) : conn := if c_insnap c then disconnect_client c else c.
 
 Definition take_snapshot (c : conn) : conn :=
-  mkConn (c_ver c) (c_phase c) (c_closed c) (c_left c) (c_connack c) (c_disc c) (in_clients c).
+  mkConn (c_ver c) (c_phase c) (c_closed c) (c_left c) (c_connack c) (c_disc c) (in_clients c) (c_sent c).
 
 Definition reset_pending (c : conn) : conn :=
   match c_phase c with PPending => set_closed (set_phase PReset c) | _ => c end.
@@ -169,6 +176,13 @@ Definition exec_gen (fixed : bool) (_ : tid) (ins : instr) (s : sstate) : outcom
         if k_lclosed (s_k s)
         then Continue (with_conns (upd i (fun c => set_closed (set_phase PRefused c)) (s_conns s)) s)
         else Continue (with_pending (s_pending s ++ [i]) (with_conns (upd i (set_phase PPending) (s_conns s)) s)))
+  | Send i =>
+      match nth_error (s_conns s) i with
+      | Some c =>
+          if phase_eqb (c_phase c) PNone || phase_eqb (c_phase c) PRefused || c_sent c || c_left c then Blocked
+          else Continue (with_conns (upd i set_sent (s_conns s)) s)
+      | None => Blocked
+      end
   | Leave i =>
       match nth_error (s_conns s) i with
       | Some c =>
@@ -202,7 +216,13 @@ Definition exec_gen (fixed : bool) (_ : tid) (ins : instr) (s : sstate) : outcom
       | _ => Blocked
       end
   | HStart i =>
-      guard i PSpawned s (fun _ => Continue (wg_add (with_conns (upd i (set_phase PAdded) (s_conns s)) s)))
+      guard i PSpawned s (fun _ => Continue (wg_add (with_conns (upd i (set_phase PWait) (s_conns s)) s)))
+  | HRead i =>
+      guard i PWait s (fun c =>
+        if c_sent c then Continue (with_conns (upd i (set_phase PAdded) (s_conns s)) s)
+        else if c_closed c || c_left c       (* the read fails: return, deferred cl.Stop / ClientsWg.Done *)
+        then Halt (wg_done (with_conns (upd i (fun c => set_closed (set_phase PDone c)) (s_conns s)) s))
+        else Blocked)
   | HClientsAdd i =>
       guard i PAdded s (fun _ => Continue (with_conns (upd i (set_phase PInClients) (s_conns s)) s))
   | HConnack i =>
@@ -247,14 +267,16 @@ Definition exec_gen (fixed : bool) (_ : tid) (ins : instr) (s : sstate) : outcom
 Definition exec : tid -> instr -> sstate -> outcome sstate := exec_gen true.
 
 (* ---------- threads ----------
-   tid 0 = closer, 1 = accept loop, 2+i = client i, 2+n+i = handler of connection i *)
+   tid 0 = closer, 1 = accept loop, 2+i = client i, 2+n+i = handler of connection i,
+   2+2n+i = client i going away (Leave is possible at any time after Dial) *)
 Definition closer_prog : list instr := [KSetEnd; KSnapshot; KDisconnect; KCloseListener; KEnterWait; KReturn].
 Fixpoint accept_prog (n : nat) : list instr :=
   match n with O => [] | S m => AChk :: AAccept :: ASpawn :: accept_prog m end.
-Definition client_prog (i : nat) : list instr := [Dial i; Leave i].
-Definition handler_prog (i : nat) : list instr := [HStart i; HClientsAdd i; HConnack i; HTeardown i].
+Definition client_prog (i : nat) : list instr := [Dial i; Send i].
+Definition leaver_prog (i : nat) : list instr := [Leave i].
+Definition handler_prog (i : nat) : list instr := [HStart i; HRead i; HClientsAdd i; HConnack i; HTeardown i].
 
-Definition conn0 (ver : N) : conn := mkConn ver PNone false false false false false.
+Definition conn0 (ver : N) : conn := mkConn ver PNone false false false false false false.
 
 Definition init_state (vers : list N) : sstate :=
   mkS (map conn0 vers) KIdle AAtChk [] 0 false false.
@@ -262,7 +284,7 @@ Definition init_state (vers : list N) : sstate :=
 Definition shutdown_threads (vers : list N) : cfg sstate instr :=
   let n := length vers in
   mkCfg (init_state vers)
-        (closer_prog :: accept_prog (S n) :: map client_prog (seq 0 n) ++ map handler_prog (seq 0 n)).
+        (closer_prog :: accept_prog (S n) :: map client_prog (seq 0 n) ++ map handler_prog (seq 0 n) ++ map leaver_prog (seq 0 n)).
 
 (* ---------- specification (from the property text) ---------- *)
 
@@ -278,6 +300,7 @@ Definition no_live_handler (s : sstate) : bool := forallb (fun c => negb (live c
 Definition handler_quiet (c : conn) : bool :=
   match c_phase c with
   | PSpawned | PAdded | PInClients => false
+  | PWait => negb (c_sent c || c_closed c || c_left c)
   | PServing => negb (c_closed c || c_left c)
   | _ => true
   end.
@@ -311,6 +334,14 @@ Definition final (vers : list N) (sched : list tid) : sstate := shared (run exec
    yet run ClientsWg.Add(1) (it is called inside the handler): Close does not wait for it *)
 Definition KF_C36_unstarted_handler (vers : list N) (sched : list tid) : bool := g_unstarted (final vers sched).
 
+(* C36-3: a connection that was accepted (its handler has run ClientsWg.Add) but whose client has
+   not sent its CONNECT is not in Clients: Close does not close it and blocks in ClientsWg.Wait
+   until that client sends its CONNECT (it is then refused) or goes away *)
+Definition silent (c : conn) : bool :=
+  phase_eqb (c_phase c) PWait && negb (c_sent c || c_closed c || c_left c).
+Definition KF_C36_silent_connection (vers : list N) (sched : list tid) : bool :=
+  existsb silent (s_conns (final vers sched)).
+
 (* ---------- engine ----------
    case = ((ver...) (action...) final)
      action = ((tid...) kobs (hobs...))   the schedule entries of one harness action, then what the
@@ -318,7 +349,7 @@ Definition KF_C36_unstarted_handler (vers : list N) (sched : list tid) : bool :=
        kobs: 0 not started, 1 at close.beforeSnapshot, 2 at close.afterSnapshot, 3 blocked in Wait,
              4 Wait passed (at close.afterCloseAll), 5 returned
        hobs: 0 no handler, 1 at attach.start, 2 at attach.afterInherit, 3 at attach.afterClientsAdd,
-             4 in the read loop, 5 at attach.readReturned, 6 returned
+             4 in the read loop, 5 at attach.readReturned, 6 returned, 7 waiting for the CONNECT packet
      final = (dial connack disc closed left) per connection, as seen by the client:
        dial 0 not dialed / 1 connected / 2 refused; connack 0/1 (success CONNACK read);
        disc 0/1 (DISCONNECT read; 0x8B for MQTT 5); closed 0/1 (EOF or reset read); left 0/1 *)
@@ -331,7 +362,7 @@ Definition model_kobs (s : sstate) : N :=
 
 Definition model_hobs (c : conn) : N :=
   match c_phase c with
-  | PSpawned => 1 | PAdded => 2 | PInClients => 3
+  | PSpawned => 1 | PWait => 7 | PAdded => 2 | PInClients => 3
   | PServing => if c_closed c || c_left c then 5 else 4
   | PDone => 6
   | _ => 0
@@ -397,7 +428,7 @@ Fixpoint zip_forallb {A B} (f : A -> B -> bool) (a : list A) (b : list B) : bool
 
 (* the specification on the observation *)
 Definition obs_quiescent (k : N) (hs : list N) : bool :=
-  ((k =? 0) || (k =? 3) || (k =? 5))%N && forallb (fun h => (h =? 0) || (h =? 4) || (h =? 6))%N hs.
+  ((k =? 0) || (k =? 3) || (k =? 5))%N && forallb (fun h => (h =? 0) || (h =? 4) || (h =? 6) || (h =? 7))%N hs.
 
 Definition obs_conn_ok (ver : N) (h : N) (o : cobs) : bool :=
   match o_dial o with
@@ -427,6 +458,16 @@ Definition obs_complete_ok (vers : list N) (acts : list action) (fin : list cobs
       else true
   end.
 
+(* the same with the connections whose handler still waits for a CONNECT excused (C36-3) *)
+Definition obs_complete_but_silent (vers : list N) (acts : list action) (fin : list cobs) : bool :=
+  match rev acts with
+  | [] => false
+  | last :: _ =>
+      obs_quiescent (a_kobs last) (a_hobs last) && ((a_kobs last =? 3) || (a_kobs last =? 5))%N &&
+      existsb (fun h => (h =? 7)%N) (a_hobs last) &&
+      zip3_forallb (fun v h o => (h =? 7)%N || obs_conn_ok v h o) vers (a_hobs last) fin
+  end.
+
 Definition obs_spec_ok (vers : list N) (acts : list action) (fin : list cobs) : bool :=
   obs_waits_ok acts && obs_complete_ok vers acts fin.
 
@@ -442,8 +483,13 @@ Definition shutdown_engine (v : val) : val :=
           let nontriv := close_called s && existsb (fun c => negb (phase_eqb (c_phase c) PNone)) (s_conns s) in
           let tg := if close_called s then (if returned s then tag "returned" else tag "blocked") else tag "no-close" in
           if negb (obs_spec_ok vs acts' fin') then
-            if g_unstarted s && negb (obs_waits_ok acts') && obs_complete_ok vs acts' fin'
-            then verdict 3 tg nontriv [VB (tag "KF_C36_unstarted_handler"); vbool agree']
+            let w_ok := obs_waits_ok acts' in
+            let c_ok := obs_complete_ok vs acts' fin' in
+            let w_explained := w_ok || g_unstarted s in
+            let c_explained := c_ok || (existsb silent (s_conns s) && obs_complete_but_silent vs acts' fin') in
+            if w_explained && c_explained then
+              if negb w_ok then verdict 3 tg nontriv [VB (tag "KF_C36_unstarted_handler"); vbool agree']
+              else verdict 3 tg nontriv [VB (tag "KF_C36_silent_connection"); vbool agree']
             else verdict 1 tg nontriv [vbool agree']
           else if agree' then verdict 0 tg nontriv []
           else verdict 2 tg nontriv []
